@@ -121,6 +121,11 @@ def rand_text(rng, maxlen=8):
     t = "".join(chr(rng.choice(pool)) for _ in range(rng.randrange(0, maxlen)))
     if rng.random() < 0.15:
         t = rng.choice(BOM_HEADS) + t
+    if rng.random() < 0.08:
+        # text that looks like an ST_Xstring escape of the XML formats: xlsb stores raw UTF-16,
+        # nothing is to be unescaped
+        k = rng.randrange(len(t) + 1)
+        t = t[:k] + rng.choice(["_x0031_", "_x005F_", "_x000D_", "_x000a_", "_x005F_x0041_", "_xD83D__xDE00_", "_x0041"]) + t[k:]
     return t
 
 def gen_env(rng):
